@@ -442,6 +442,41 @@ theorem asm_callback_entry_idle (a : ASM) (op : AsmOp) (g : GenStep) (evs : List
 
 example : (({ reader := true, result := some 0 } : ASM).step .inRead (.yld 7)) = (ASM.clear, .ok [.outRead]) := by decide
 
+/-- inReadEvent with the read-ahead drain loop of its implicit-read branch (`pend` = what each
+    extra `readAsync(16384)` does while `_read_ahead_pending()` holds):
+    * with nothing read ahead it is the plain transition (`asm_single_active_op` applies);
+    * for every `pend` the outcome keeps the invariant: a raise leaves the cleared state, a success
+      leaves at most one operation active (an incomplete buffered record leaves the reader waiting);
+    * everything complete in the read-ahead buffer is delivered before inReadEvent returns: if the
+      first read and all n extra reads complete, n+1 outReadEvents are emitted and the machine ends
+      idle.  (A callback that starts another operation makes `_read_ahead_pending()` false: the
+      loop's `noOp` test.) -/
+theorem asm_read_ahead_drained (a : ASM) (g : GenStep) (pend : List GenStep) :
+    a.inReadDrain g [] = a.inReadEvent g ∧
+    ((a.inReadDrain g pend).2 = .assertionError ∨ (a.inReadDrain g pend).2 = .raised →
+        (a.inReadDrain g pend).1 = ASM.clear) ∧
+    (∀ evs, (a.inReadDrain g pend).2 = .ok evs → (a.inReadDrain g pend).1.activeOps ≤ 1) ∧
+    (∀ (v : Nat) (vs : List Nat), (v ≠ 0 ∧ v ≠ 1) → (∀ x ∈ vs, x ≠ 0 ∧ x ≠ 1) →
+        ASM.clear.inReadDrain (.yld v) (vs.map GenStep.yld) =
+          (ASM.clear, .ok (List.replicate (vs.length + 1) AsmEv.outRead))) := by
+  refine ⟨inReadDrain_nil a g, (asm_drain_spec a g pend).1, (asm_drain_spec a g pend).2, ?_⟩
+  intro v vs hv hvs
+  have hne : ¬ (v = 0 ∨ v = 1) := by omega
+  have h0 : (({ reader := true, result := ASM.clear.result } : ASM).doReadOp (.yld v)) =
+      (ASM.clear, .ok [AsmEv.outRead]) := by
+    simp [ASM.doReadOp, ASM.clear, hne]
+  have := drainLoop_all_complete vs [AsmEv.outRead] hvs
+  simp only [ASM.inReadDrain, ASM.guard]
+  have hc : ASM.clear.checkAssert = true := by decide
+  simp only [hc, Bool.not_true, Bool.false_eq_true, if_false]
+  have hf : ASM.clear.handshaker = false ∧ ASM.clear.closer = false ∧ ASM.clear.reader = false ∧ ASM.clear.writer = false := by
+    decide
+  simp only [hf.1, hf.2.1, hf.2.2.1, hf.2.2.2, Bool.false_eq_true, if_false, h0, this]
+  simp [List.replicate_succ]
+
+example : ASM.clear.inReadDrain (.yld 7) [.yld 8, .yld 0, .yld 9] =
+    ({ reader := true, result := some 0 }, .ok [.outRead, .outRead]) := by decide
+
 /-- over whole histories: from the initial state, after any sequence of transitions with
     protocol-obeying generators, `_checkAssert()` holds -/
 theorem asm_invariant_all_histories (steps : List (AsmOp × GenStep)) (hp : ∀ x ∈ steps, x.2.proto) :
